@@ -1328,11 +1328,18 @@ class Interpreter(BaseInterpreter[TContext, TEvent]):
 
         try:
             # 🧬 Create, configure, and start the new child interpreter.
-            actor_id = f"{self.id}:{invocation.src}:{uuid.uuid4()}"
+            # 🏷️ An invoked actor is registered under its INVOKE id, like the
+            #    sync engine (and XState) do. It used to be
+            #    `<parent>:<src>:<uuid>`, so `sendTo("<invoke id>")`,
+            #    `stopChild` and `forwardTo` could not address it.
+            actor_id = f"{self.id}:{invocation.id}"
+            await self._retire_actor(actor_id)
             child_interpreter = Interpreter(actor_machine)
             child_interpreter.parent = self
             child_interpreter.id = actor_id
             self._actors[actor_id] = child_interpreter
+            # (still addressable by its service key, as before)
+            self._actor_sources[actor_id] = invocation.src
 
             for plugin in self._plugins:
                 plugin.on_service_start(self, invocation)
@@ -1439,6 +1446,10 @@ class Interpreter(BaseInterpreter[TContext, TEvent]):
             #    its own child actors, timers and delayed sends are still
             #    live, and once it is forgotten here nothing can reach them.
             if child_interpreter is not None:
-                self._actors.pop(child_interpreter.id, None)
+                # 🧹 Only forget OUR child: the id may already name the next
+                #    activation's actor.
+                if self._actors.get(child_interpreter.id) is child_interpreter:
+                    self._actors.pop(child_interpreter.id, None)
+                    self._actor_sources.pop(child_interpreter.id, None)
                 if child_interpreter.status != "stopped":
                     await child_interpreter.stop()
